@@ -164,9 +164,18 @@ class MultipartDecoder:
                 # Update the search start position to be equal to the
                 # current buffer length (already searched) minus a
                 # safe buffer for part of the search target.
+                searched_from = self._search_position
                 self._search_position = max(
                     0, len(self.buffer) - len(self.boundary) - SEARCH_EXTRA_LENGTH
                 )
+                # A delimiter whose transport padding or line break has not
+                # arrived yet must stay inside the searched window.
+                pending = self.buffer.rfind(b"--" + self.boundary, searched_from)
+
+                if pending != -1:
+                    self._search_position = min(
+                        self._search_position, max(0, pending - 2)
+                    )
 
         elif self.state == State.PART:
             match = BLANK_LINE_RE.search(self.buffer, self._search_position)
